@@ -75,8 +75,10 @@ impl<'a> VecOperator<'a> for HashMapGroupingValRows<'a> {
     fn can_stream_input(&self, _: usize) -> bool {
         false
     }
-    fn can_stream_output(&self, output: usize) -> bool {
-        output != self.unique_out.i
+    // The packed rows cannot be streamed in (`ValRows` has no sliced form), so every execution sees the whole input:
+    // inside a streaming stage the operator would be run once per chunk and add every row again.
+    fn can_stream_output(&self, _: usize) -> bool {
+        false
     }
     fn can_block_output(&self) -> bool { true }
     fn allocates(&self) -> bool {
